@@ -122,6 +122,10 @@ func (td *typeDecls) index() {
 		for _, pair := range td.matchOrigins(args[0], args[1]) {
 			a, b := td.find(pair[0]), td.find(pair[1])
 			if a != b {
+				// keep the value the generator learnt more about as the representative
+				if opaqueInfo(b) > opaqueInfo(a) {
+					a, b = b, a
+				}
 				td.parent[b] = a
 			}
 		}
@@ -138,7 +142,13 @@ func (td *typeDecls) matchOrigins(a, b string) [][2]*VOpaque {
 	}
 	if strings.Contains(a, "[*]") || strings.Contains(b, "[*]") {
 		var xs, ys []*VOpaque
-		for o, v := range td.byOrigin {
+		var origins []string
+		for o := range td.byOrigin {
+			origins = append(origins, o)
+		}
+		sort.Strings(origins)
+		for _, o := range origins {
+			v := td.byOrigin[o]
 			t := tieRe.ReplaceAllString(o, "[*]")
 			if t == a {
 				xs = append(xs, v)
@@ -154,6 +164,38 @@ func (td *typeDecls) matchOrigins(a, b string) [][2]*VOpaque {
 		}
 	}
 	return out
+}
+
+// opaqueInfo: how much the run established about a type value (its own kind, and recursively its attributes).
+func opaqueInfo(o *VOpaque) int {
+	seen := map[*VOpaque]bool{}
+	var f func(o *VOpaque, d int) int
+	f = func(o *VOpaque, d int) int {
+		if o == nil || seen[o] || d > 8 {
+			return 0
+		}
+		seen[o] = true
+		n := 0
+		if o.Kind != "" {
+			n++
+		}
+		for _, a := range o.attrs {
+			switch x := a.(type) {
+			case *VOpaque:
+				n += 1 + f(x, d+1)
+			case *VList:
+				for _, e := range x.Elems {
+					if eo, ok := e.(*VOpaque); ok {
+						n += 1 + f(eo, d+1)
+					}
+				}
+			default:
+				n++
+			}
+		}
+		return n
+	}
+	return f(o, 0)
 }
 
 // splitTop splits at commas outside parentheses / brackets / ‹› quotes.
